@@ -55,11 +55,13 @@ class _State:
     def get_unsatisfied_prerequisites(self):
         return list(self._unsat)
 
+    xtrig_ok = True        # False: the task still waits on an xtrigger (e.g. a retry delay)
+
     def external_triggers_all_satisfied(self):
         return True
 
     def xtriggers_all_satisfied(self):
-        return True
+        return self.xtrig_ok
 
 
 class _Task:
@@ -93,7 +95,9 @@ def mk_pool(specs, stop):
     pool.active_tasks = {}
     tasks = []
     for i, (pt, st, ra, comp, pre) in enumerate(specs):
-        t = _Task(pt, f't{i}', st, ra, comp, pre)
+        t = _Task(pt, f't{i}', st.replace('+xtrig', ''), ra, comp, pre)
+        if st.endswith('+xtrig'):
+            t.state.xtrig_ok = False
         pool.active_tasks.setdefault(t.point, {})[t.identity] = t
         tasks.append(t)
     pool._active_tasks_list = list(tasks)
@@ -106,7 +110,7 @@ def mk_pool(specs, stop):
 
 TASKS = [(pt, st, ra, comp, pre)
          for pt in (1, 2)
-         for st in ('waiting', 'running', 'failed', 'succeeded')
+         for st in ('waiting', 'waiting+xtrig', 'running', 'failed', 'succeeded')
          for ra in (False, True)
          for comp in (False, True)
          for pre in ('sat', 'unsat-1', 'unsat-9')]
